@@ -702,6 +702,100 @@ def history_inline(rng):
     return ops
 
 
+# ---- PROCESS-WIDE state: a fresh writer object after other documents were written in this process ------------------------
+def _layouts_used(spec):
+    out = []
+    for lg in spec["langs"]:
+        if lg.get("layout"):
+            out.append(lg["layout"])
+        for c in lg["caps"]:
+            if c.get("layout"):
+                out.append(c["layout"])
+            for nd in c["nodes"]:
+                if nd[-1] and nd[0] in ("t", "b", "s") and isinstance(nd[-1], str) and nd[-1] in ("rel_fit", "rel_noext",
+                        "rel_over", "abs", "abs_em", "abs_pt", "abs_c", "align", "pad", "vtt", "empty"):
+                    out.append(nd[-1])
+    return out
+
+
+def history_process_state(rng):
+    """document A is written (any writer object), then a FRESH writer object of the same class writes B whose SET-LEVEL
+    layout_info equals a caption / language / node layout of A (and which shares style names and language codes with A);
+    B's bytes are compared with B written alone in a pristine process (the pristine twin C09.run makes for that write).
+    DFXP writers (with and without inline positioning) most often; every writer class."""
+    a, b = gen_vocab_pair(rng)
+    if rng.random() < 0.5:
+        a = gen_spec(rng, "rich")
+    used = _layouts_used(a) or ["rel_noext"]
+    b["layout"] = rng.choice(used)
+    if rng.random() < 0.3:
+        for lg in b["langs"]:
+            lg["layout"] = rng.choice(used)
+    kind = rng.choice(["dfxp", "dfxp", "single", "legacy"]) if rng.random() < 0.6 else rng.choice(WRITER_KINDS)
+    kind, wopts = gen_writer(rng, kind)
+    if kind in ("dfxp", "single") and rng.random() < 0.5:
+        wopts["write_inline_positioning"] = True
+    if any(str(u).startswith("abs") for u in used) and kind != "legacy" and rng.random() < 0.7:
+        wopts["video_width"], wopts["video_height"] = 640, 360
+    ops = [{"op": "build", "spec": a}, {"op": "build", "spec": b},
+           {"op": "write", "kind": kind, "wopts": wopts, "kw": {}, "w": 0, "set": 0}]
+    if rng.random() < 0.3:
+        k2, wo2 = gen_writer(rng, rng.choice(["dfxp", "single", "legacy", "sami", "vtt"]))
+        ops.append({"op": "write", "kind": k2, "wopts": wo2, "kw": {}, "w": 1, "set": 0})
+    ops.append({"op": "write", "kind": kind, "wopts": wopts, "kw": {}, "w": 2, "set": 1})     # a fresh object writes B
+    return ops
+
+
+# ---- a writer object reused after a write() that RAISED half-way ------------------------------------------------------------
+def history_after_raise(rng):
+    """set X makes the writer raise AFTER it has rendered something: caption 1 opens an italics span and never closes it,
+    a later caption is positioned in px (RelativizationError without video size: DFXP / SAMI / Single) or has more rows than
+    the SCC writer can address (IndexError) or a time nobody can print; the same object then writes Y, a fresh object writes
+    Y: byte-identical."""
+    kind = rng.choice(["sami", "sami", "dfxp", "single", "scc", "scc", "legacy", "vtt", "srt"])
+    lang = rng.choice(LANGS)
+    first = {"start": 1000000, "end": 2000000, "style": rng.choice([None, {"italics": True}]), "layout": None,
+             "nodes": [["s", True, {"italics": True}, None], ["t", words(rng, pool=PLAIN), None]]}
+    second = {"start": 3000000, "end": 4000000, "style": None, "layout": None, "nodes": [["t", words(rng, pool=PLAIN), None]]}
+    if kind == "scc":
+        nodes = []
+        for i in range(rng.choice([33, 34, 40])):
+            if i:
+                nodes.append(["b", None])
+            nodes.append(["t", "r%d" % i, None])
+        bad = {"start": 5000000, "end": 6000000, "style": None, "layout": None, "nodes": nodes}
+    elif kind in ("sami", "dfxp", "single"):
+        bad = {"start": 5000000, "end": 6000000, "style": None, "layout": rng.choice(["abs", "abs_pt", "abs_c"]),
+               "nodes": [["t", words(rng, pool=PLAIN), None]]}
+        if rng.random() < 0.4:
+            bad["layout"] = None
+            bad["nodes"] = [["t", "px node", rng.choice(["abs", "abs_em"])]]
+    else:
+        bad = {"start": 5000000, "end": rng.choice([float("inf"), float("nan"), 10 ** 21]), "style": None, "layout": None,
+               "nodes": [["t", words(rng, pool=PLAIN), None]]}
+    caps = [first] + ([second] if rng.random() < 0.6 else []) + [bad]
+    x = {"layout": None, "styles": rng.choice([None, [["s1", {"italics": True}]]]),
+         "langs": [{"lang": lang, "layout": None, "caps": caps}]}
+    if rng.random() < 0.3:
+        x["langs"].insert(0, {"lang": "xx" if lang != "xx" else "yy", "layout": None, "caps": [dict(second)]})
+    y = gen_spec(rng, rng.choice(["plain", "rich"])) if rng.random() < 0.5 else \
+        {"layout": None, "styles": None, "langs": [{"lang": lang, "layout": None, "caps": [
+            {"start": 1000000, "end": 2000000, "style": None, "layout": None,
+             "nodes": [["s", True, {"italics": True}, None], ["t", "fine", None], ["s", False, {"italics": True}, None]]},
+            {"start": 2500000, "end": 3500000, "style": None, "layout": None, "nodes": [["t", "plain", None]]}]}]}
+    wopts = {}
+    if kind in ("sami", "dfxp", "single") and rng.random() < 0.3:
+        wopts["fit_to_screen"] = False
+
+    def wr(w, s_):
+        return {"op": "write", "kind": kind, "wopts": wopts, "kw": {}, "w": w, "set": s_}
+    ops = [{"op": "build", "spec": x}, {"op": "build", "spec": y}]
+    if rng.random() < 0.4:
+        ops.append(wr(0, 1))
+    ops += [wr(0, 0), wr(0, 1), wr(1, 1)]
+    return ops
+
+
 def history_c09(rng):
     """1-3 caption sets, 3-8 writes on shared and fresh writer objects; the same (writer class, options, set) is
     written again by the same object, by a fresh object and after other sets were written; now and then an edit."""
@@ -769,9 +863,13 @@ def history_c09(rng):
         for k, wo in enumerate(variants[:rng.randint(2, 4)]):
             ops.append({"op": "write", "kind": kind, "wopts": wo, "kw": {}, "w": k, "set": 0})
         return ops
-    if shape < 0.76:
+    if shape < 0.74:
         return history_vocab(rng)
-    if shape < 0.82:
+    if shape < 0.785:
+        return history_process_state(rng)
+    if shape < 0.83:
+        return history_after_raise(rng)
+    if shape < 0.87:
         return history_inline(rng)
     nsets = rng.choice([1, 2, 2, 3])
     for k in range(nsets):
@@ -810,11 +908,76 @@ def history_c09(rng):
     return ops
 
 
+# ---- reader REUSE under non-default options ---------------------------------------------------------------------------------
+NONDEFAULT_ROPTS = {"vtt": [{"ignore_timing_errors": False}, {"ignore_timing_errors": False}, {"time_shift_milliseconds": 1500},
+                            {"ignore_timing_errors": False, "time_shift_milliseconds": 500}],
+                    "dfxp": [{"read_invalid_positioning": True}]}
+NONDEFAULT_OPTS = {"srt": [{"lang": "fr"}, {"lang": "de"}], "vtt": [{"lang": "es"}, {}], "mdvd": [{"lang": "fr"}],
+                   "dfxp": [{}], "sami": [{}],
+                   "scc": [{"lang": "fr"}, {"offset": 2}, {"simulate_roll_up": True}, {"lang": "de", "offset": 30},
+                           {"simulate_roll_up": True, "offset": 1}]}
+
+
+def _vtt_first_start(doc):
+    import re
+    m = re.search(r"(?:(\d+):)?(\d\d):(\d\d)\.(\d\d\d) -->", doc)
+    if not m:
+        return 0
+    return ((int(m.group(1) or 0) * 60 + int(m.group(2))) * 60 + int(m.group(3))) * 1000 + int(m.group(4))
+
+
+def vtt_raising_midway(rng):
+    """a valid cue, then one the strict reader refuses: the read raises after it has remembered the first cue's start"""
+    return ("WEBVTT\n\n00:%02d.000 --> 00:%02d.500\nfine\n\n" % (rng.choice([20, 40, 59]), 59) +
+            rng.choice(["00:05.000 --> 00:04.000\nend before start\n", "00:01.000 --> 00:02.000\nearlier start\n",
+                        "00:30.000 --> nonsense\nx\n"]))
+
+
+def history_c10_reuse(rng):
+    """ONE reader object built with NON-default options reads document 1, sometimes a document that makes it raise
+    mid-way, then document 2 = the same document again, or another one (WebVTT: one whose first cue starts BEFORE document
+    1's last cue); a second object with the same options reads document 2 as well.  Every read is compared with the same
+    read in a pristine process (fresh reader, same options)."""
+    fmt = rng.choice(["vtt", "vtt", "vtt", "scc", "scc", "srt", "mdvd", "dfxp", "sami"])
+    ropts = dict(rng.choice(NONDEFAULT_ROPTS.get(fmt, [{}])))
+    o1 = dict(rng.choice(NONDEFAULT_OPTS[fmt]))
+    o2 = dict(rng.choice(NONDEFAULT_OPTS[fmt])) if rng.random() < 0.5 else dict(o1)
+    mk = (lambda: doc_sami(rng)) if fmt == "sami" else (lambda: DOCS[fmt](rng))
+    d1 = mk()
+    q = rng.random()
+    if q < 0.4:
+        d2 = d1
+    else:
+        d2 = mk()
+        if fmt == "vtt":
+            for _ in range(6):
+                if _vtt_first_start(d2) < _vtt_first_start(d1) or d1.count("-->") > 1 and _vtt_first_start(d2) <= _vtt_first_start(d1):
+                    break
+                d1, d2 = d2, d1 if rng.random() < 0.5 else mk()
+            if _vtt_first_start(d2) > _vtt_first_start(d1):
+                d1, d2 = d2, d1
+
+    def rd(doc, opts, r):
+        return {"op": "read", "fmt": fmt, "doc": doc, "opts": opts, "ropts": ropts, "r": r}
+    ops = [rd(d1, o1, 0)]
+    if rng.random() < 0.4:
+        bad = vtt_raising_midway(rng) if fmt == "vtt" and rng.random() < 0.7 else bad_doc(rng, fmt)
+        ops.append(rd(bad, {}, 0))
+    ops.append(rd(d2, o2, 0))
+    if rng.random() < 0.5:
+        ops.append(rd(d2, o2, 1))
+    if rng.random() < 0.3:
+        ops.append(rd(d1, o1, 0))
+    return ops
+
+
 def history_c10(rng, maxlen=9):
     """3-9 operations: reads of the six formats on fresh and REUSED reader objects (same document again, another
     document; reader constructor options), API-built sets, writes by any writer in between, edits of a set (add_style,
     rules in place, caption times / style / layout, node append / content, caption removal), and re-reads of a
     document after edits.  SAMI documents sometimes share their <STYLE> block with an earlier one."""
+    if rng.random() < 0.2:
+        return history_c10_reuse(rng)
     ops = []
     nsets = 0
     readers = {}          # (fmt, ropts) -> reader ids
